@@ -290,6 +290,29 @@ macro_rules! instantiate_derived {
     json.dump(cat, open(os.path.join(V, "gen", "catalogue_D.json"), "w"), indent=0)
     return len(entries)
 
+def gen_ledger_version():
+    """the data version literal of savefile_abi::verify_compatiblity's load/save calls, read from the source"""
+    import re
+    repo = os.environ.get("VERIF_REPO", "/repo")
+    src = open(os.path.join(repo, "savefile-abi", "src", "lib.rs")).read()
+    body = src[src.index("pub fn verify_compatiblity"):]
+    body = body[:body.index("\n}\n")]
+    def val(tok):
+        tok = tok.strip()
+        if tok.isdigit(): return int(tok)
+        m = re.search(r"const\s+%s\s*:\s*u32\s*=\s*(\d+)" % re.escape(tok), src)
+        if not m: raise SystemExit("cannot resolve ledger version token %r" % tok)
+        return int(m.group(1))
+    l = re.search(r"load_file_noschema\([^,]+,\s*([^)]+)\)", body)
+    sv = re.search(r"save_file_noschema\([^,]+,\s*([^,]+),", body)
+    if not l or not sv: raise SystemExit("verify_compatiblity: load/save calls not found")
+    lv, svv = val(l.group(1)), val(sv.group(1))
+    txt = "//! GENERATED from %s/savefile-abi/src/lib.rs (verify_compatiblity).\npub const LEDGER_VERSION: u32 = %d;\npub const LEDGER_LOAD_VERSION: u32 = %d;\n" % (repo, svv, lv)
+    path = os.path.join(V, "kani", "src", "ledger_version.rs")
+    if not os.path.exists(path) or open(path).read() != txt:
+        open(path, "w").write(txt)
+    return (svv, lv)
+
 def main():
     ap = argparse.ArgumentParser()
     ap.add_argument("--crate", default="kani")
@@ -302,6 +325,7 @@ def main():
         print("schemas:", schemas.emit())
         import histories
         print("histories:", histories.emit())
+        print("ledger version (save, load):", gen_ledger_version())
 
 if __name__ == "__main__":
     main()
